@@ -925,7 +925,7 @@ func skFromText(text string) (prog []*skStmt, why string) {
 // Go port of ShVerif.C26.supportedProg (routing only; tied to the Lean definition by `supported` ops)
 
 type skCtx struct {
-	e, ign, unk, fn, inFor, top bool
+	e, ign, unk, fn, top bool
 	tl                          []bool
 }
 
@@ -961,11 +961,6 @@ func skSimpleTrap(p []*skStmt) bool {
 		switch s.C.K {
 		case "true":
 		case "echo":
-			for _, pt := range s.C.W {
-				if pt.K == 'v' {
-					return false
-				}
-			}
 		default:
 			return false
 		}
@@ -1022,7 +1017,7 @@ func skSupCmd(k skCtx, c *skCmd) bool {
 	case "sete":
 		return !c.On || k.e
 	case "ret":
-		return c.N != nil && k.fn && !k.inFor
+		return c.N != nil && k.fn
 	case "brk", "cont":
 		return skLevelsOk(k.tl, c.N)
 	case "trapexit":
@@ -1052,7 +1047,6 @@ func skSupCmd(k skCtx, c *skCmd) bool {
 	case "for":
 		body := k
 		body.tl = append([]bool{true}, k.tl...)
-		body.inFor = true
 		tailOk := true
 		if n := len(c.P2); n > 0 {
 			tailOk = skTailOkS(c.P2[n-1])
@@ -1216,11 +1210,8 @@ func (g *skGen) word(closed bool) []skPart {
 		case k < 4:
 			w = append(w, skPart{K: 's'})
 		default:
-			if closed && !g.wildly() {
-				w = append(w, skPart{K: 'l', S: r.Pick(skLits)})
-			} else {
-				w = append(w, skPart{K: 'v', S: r.Pick(append(skVars, "i", "j"))})
-			}
+			_ = closed
+			w = append(w, skPart{K: 'v', S: r.Pick(append(skVars, "i", "j"))})
 		}
 	}
 	// merge adjacent literals as the parser would
@@ -1303,7 +1294,7 @@ func (g *skGen) atom(k skCtx) *skCmd {
 			}
 			return &skCmd{K: "exit"}
 		case c < 16:
-			if (k.fn && !k.inFor) || g.wildly() {
+			if k.fn || g.wildly() {
 				if g.wildly() && r.Bool() {
 					return &skCmd{K: "ret"}
 				}
@@ -1487,7 +1478,6 @@ func (g *skGen) stmt(k skCtx, depth int) *skStmt {
 		case c < 18:
 			body := k
 			body.tl = append([]bool{true}, k.tl...)
-			body.inFor = true
 			nit := r.Intn(4)
 			var items []string
 			for i := 0; i < nit; i++ {
